@@ -156,7 +156,8 @@ CLAIMED.update({
             "loop, the rotate 90/270 blits (Props/C08Fast), all replayed through `pixdrv samplefast` under 6 configurations. Partial: "
             "projective sampling only within a stated bound; the bilinear cover iterator up to one packed-lane identity "
             "(PackedLerpExact) and without its two-line cache; rotate tile split and SIMD bodies by correspondence only; narrow "
-            "pipeline, no alpha maps/accessors. Known finding "
+            "pipeline, no alpha maps/accessors (the wide pipeline's bilinear reader is judged by a spec oracle only: rgba_float "
+            "sources, every repeat mode, exact bilinear formula within 1e-5). Known finding "
             "S2: homogeneous coordinates beyond int32 in __bits_image_fetch_general.", TECH, "DESIGN.md 6/C08"),
     "C13": ("proof",
             "Model over exact rationals of the gradient walker (sentinels, stop search, NORMAL/REFLECT folding), linear projection, "
@@ -216,7 +217,8 @@ CLAIMED.update({
             "replacing owned buffers and the glyph cache's private copies: ref_count = client refs + parents + cache entries, release "
             "exactly once exactly at the last unref with the callback fired once, alpha map outlives its parent, no chains or self "
             "loops, no use after free, no leak — proved as invariants over every operation history; exhaustive small-scope plus "
-            "29k generated histories against the library under ASan+LSan with a malloc-wrap block census after every call.",
+            "29k generated histories against the library under ASan+LSan with a malloc-wrap block census after every call; 14 "
+            "re-entrant scenarios (the destroy callback modifies the dying image) as an oracle-only sub-check.",
             TB + "Every owned block (bits, transform, filter params, clip, stops, glyph_t, cache) is proved freed at most once and "
             "exactly once at the end, over all histories including injected allocation failures and borrowed alpha-map references "
             "(no _partial left).", TECH, "DESIGN.md 6/C20"),
@@ -245,7 +247,8 @@ CLAIMED.update({
             "absent colour zero, widening 0->0 max->max strictly monotone, narrow(widen)=id, stores change only the addressed pixel's "
             "bits for 1/4/8/16/24/32 bpp, scanline = map of pixel fetch, indexed formats through a palette — for all pixel values; "
             "exhaustive <=16 bpp values at every word phase, edge/random 24/32/10-bit, direct vs accessor-callback images on both "
-            "chains against the model and an independent bit-stream oracle.",
+            "chains against the model and an independent bit-stream oracle; rgb_float/rgba_float scanline reader, single-pixel reader "
+            "and writer by a bit-exact spec oracle.",
             TB + "Float paths: an exact binary32 model (round-to-nearest-even, the rounded reciprocal and the rounded product of "
             "pixman_unorm_to_float, the literal pixman_float_to_unorm) gives float_roundtrip for every width <= 11 bits (and a proved "
             "counterexample from 12 bits on, where the library behaves identically and no pixel format has such a channel), exact "
